@@ -1,0 +1,243 @@
+//! Verification hooks (only compiled under `--cfg lalrpop_verif`).
+//!
+//! Records, inside the real generation path, the normalised grammar and the
+//! LR(1) automaton that the code generators are handed, and serialises them
+//! as JSON. Also provides named crash points for the build protocol. Nothing
+//! here changes what LALRPOP generates.
+
+use crate::grammar::parse_tree::MatchMapping;
+use crate::grammar::repr as r;
+use crate::lexer::re;
+use crate::lr1::Lr1Result;
+use std::cell::RefCell;
+use std::fmt::Write;
+
+thread_local! {
+    static GRAMMAR: RefCell<Option<String>> = const { RefCell::new(None) };
+    static STARTS: RefCell<Vec<String>> = const { RefCell::new(Vec::new()) };
+    static STAGES: RefCell<Vec<String>> = const { RefCell::new(Vec::new()) };
+}
+
+fn esc(s: &str) -> String {
+    let mut o = String::with_capacity(s.len() + 2);
+    o.push('"');
+    for c in s.chars() {
+        match c {
+            '"' => o.push_str("\\\""),
+            '\\' => o.push_str("\\\\"),
+            '\n' => o.push_str("\\n"),
+            '\r' => o.push_str("\\r"),
+            '\t' => o.push_str("\\t"),
+            c if (c as u32) < 0x20 => {
+                let _ = write!(o, "\\u{:04x}", c as u32);
+            }
+            c => o.push(c),
+        }
+    }
+    o.push('"');
+    o
+}
+
+fn sym(s: &r::Symbol) -> String {
+    match s {
+        r::Symbol::Nonterminal(n) => format!("{{\"k\":\"nt\",\"n\":{}}}", esc(&n.to_string())),
+        r::Symbol::Terminal(t) => format!("{{\"k\":\"t\",\"n\":{}}}", esc(&t.to_string())),
+    }
+}
+
+fn list<T>(items: impl IntoIterator<Item = T>, f: impl Fn(T) -> String) -> String {
+    let v: Vec<String> = items.into_iter().map(f).collect();
+    format!("[{}]", v.join(","))
+}
+
+/// Index of a production in code generation order (the reduce index).
+fn prod_index(grammar: &r::Grammar, p: &r::Production) -> usize {
+    grammar
+        .nonterminals
+        .values()
+        .flat_map(|nt| &nt.productions)
+        .position(|q| std::ptr::eq(q, p))
+        .expect("production of this grammar")
+}
+
+/// Called from `process_file_into` right after normalisation succeeded.
+pub fn record_grammar(grammar: &r::Grammar) {
+    let mut o = String::new();
+    let _ = write!(
+        o,
+        "\"prefix\":{},\"lalr\":{},\"codegen\":{},\"uses_error_recovery\":{}",
+        esc(&grammar.prefix),
+        grammar.algorithm.lalr,
+        esc(match grammar.algorithm.codegen {
+            r::LrCodeGeneration::TableDriven => "table",
+            r::LrCodeGeneration::RecursiveAscent => "ascent",
+            r::LrCodeGeneration::TestAll => "test_all",
+        }),
+        grammar.uses_error_recovery
+    );
+    let _ = write!(
+        o,
+        ",\"terminals\":{}",
+        list(&grammar.terminals.all, |t| esc(&t.to_string()))
+    );
+    let _ = write!(
+        o,
+        ",\"nonterminals\":{}",
+        list(grammar.nonterminals.keys(), |n| esc(&n.to_string()))
+    );
+    let _ = write!(
+        o,
+        ",\"types\":{}",
+        list(grammar.nonterminals.keys(), |n| {
+            match grammar.types.lookup_nonterminal_type(n) {
+                Some(t) => esc(&t.to_string()),
+                None => "null".to_string(),
+            }
+        })
+    );
+    let prods = grammar.nonterminals.values().flat_map(|nt| &nt.productions);
+    let _ = write!(
+        o,
+        ",\"prods\":{}",
+        list(prods, |p| {
+            format!(
+                "{{\"nt\":{},\"rhs\":{},\"action\":{},\"fallible\":{}}}",
+                esc(&p.nonterminal.to_string()),
+                list(&p.symbols, sym),
+                p.action.index(),
+                grammar.action_is_fallible(p.action)
+            )
+        })
+    );
+    let _ = write!(
+        o,
+        ",\"starts\":{}",
+        list(&grammar.start_nonterminals, |(u, s)| {
+            format!("[{},{}]", esc(&u.to_string()), esc(&s.to_string()))
+        })
+    );
+    match grammar.intern_token {
+        None => o.push_str(",\"lexer\":null"),
+        Some(ref it) => {
+            let _ = write!(
+                o,
+                ",\"lexer\":{}",
+                list(&it.match_entries, |m| {
+                    let (kind, src, re_str) = match m.match_literal {
+                        r::TerminalLiteral::Quoted(ref s) => {
+                            ("quoted", s.to_string(), format!("{}", re::parse_literal(s)))
+                        }
+                        r::TerminalLiteral::Regex(ref s) => (
+                            "regex",
+                            s.to_string(),
+                            match re::parse_regex(s) {
+                                Ok(h) => format!("{h}"),
+                                Err(_) => String::new(),
+                            },
+                        ),
+                    };
+                    let (skip, name) = match m.user_name {
+                        MatchMapping::Terminal(ref t) => (false, t.to_string()),
+                        MatchMapping::Skip => (true, String::new()),
+                    };
+                    format!(
+                        "{{\"prec\":{},\"kind\":{},\"src\":{},\"re\":{},\"skip\":{},\"name\":{}}}",
+                        m.precedence,
+                        esc(kind),
+                        esc(&src),
+                        esc(&re_str),
+                        skip,
+                        esc(&name)
+                    )
+                })
+            );
+        }
+    }
+    GRAMMAR.with(|g| *g.borrow_mut() = Some(o));
+    STARTS.with(|s| s.borrow_mut().clear());
+}
+
+/// Called from `emit_recursive_ascent` with exactly the value that the code
+/// generators receive.
+pub fn record_states(
+    grammar: &r::Grammar,
+    user_nt: &r::NonterminalString,
+    start_nt: &r::NonterminalString,
+    result: &Lr1Result<'_>,
+) {
+    let mut o = String::new();
+    let _ = write!(
+        o,
+        "{{\"user\":{},\"start\":{}",
+        esc(&user_nt.to_string()),
+        esc(&start_nt.to_string())
+    );
+    let (verdict, states) = match result {
+        Ok(states) => ("ok", states),
+        Err(e) => ("conflict", &e.states),
+    };
+    let _ = write!(o, ",\"verdict\":{}", esc(verdict));
+    if let Err(e) = result {
+        let _ = write!(o, ",\"conflicts\":{}", e.conflicts.len());
+    }
+    if result.is_ok() {
+        let _ = write!(
+            o,
+            ",\"states\":{}",
+            list(states.iter(), |st| {
+                format!(
+                    "{{\"index\":{},\"items\":{},\"shifts\":{},\"gotos\":{},\"reds\":{}}}",
+                    st.index.0,
+                    list(&st.items.vec, |it| format!(
+                        "[{},{}]",
+                        prod_index(grammar, it.production),
+                        it.index
+                    )),
+                    list(&st.shifts, |(t, s)| format!("[{},{}]", esc(&t.to_string()), s.0)),
+                    list(&st.gotos, |(n, s)| format!("[{},{}]", esc(&n.to_string()), s.0)),
+                    list(&st.reductions, |(la, p)| format!(
+                        "[{},{}]",
+                        prod_index(grammar, p),
+                        list(la.iter(), |t| esc(&t.to_string()))
+                    ))
+                )
+            })
+        );
+    }
+    o.push('}');
+    STARTS.with(|s| s.borrow_mut().push(o));
+}
+
+/// Pipeline stage marker (C18: stages happen in order, nothing after a
+/// failing stage).
+pub fn stage(name: &str) {
+    STAGES.with(|s| s.borrow_mut().push(name.to_string()));
+}
+
+/// Returns (and clears) everything recorded on this thread as one JSON object.
+pub fn take_export() -> String {
+    let g = GRAMMAR.with(|g| g.borrow_mut().take());
+    let starts = STARTS.with(|s| std::mem::take(&mut *s.borrow_mut()));
+    let stages = STAGES.with(|s| std::mem::take(&mut *s.borrow_mut()));
+    let mut o = String::from("{");
+    match g {
+        Some(g) => {
+            let _ = write!(o, "\"normalized\":true,{g}");
+        }
+        None => o.push_str("\"normalized\":false"),
+    }
+    let _ = write!(o, ",\"automata\":[{}]", starts.join(","));
+    let _ = write!(o, ",\"stages\":{}", list(&stages, |s| esc(s)));
+    o.push('}');
+    o
+}
+
+/// Named crash point of the build protocol: aborts the process (no
+/// destructors, no flushing) when `LALRPOP_VERIF_CRASH` names this point.
+pub fn crash_point(name: &str) {
+    if let Ok(v) = std::env::var("LALRPOP_VERIF_CRASH") {
+        if v == name {
+            std::process::abort();
+        }
+    }
+}
